@@ -58,7 +58,7 @@ def main(argv=None):
         cov["samples"] = t.samples[:4]
     # vacuity guards: a check whose feature was never exercised is broken, not green
     for g in res.get("guards", ()):
-        if t.c.get(g, 0) <= 0:
+        if t.c.get(g, 0) <= 0 and not t.c.get("violations", 0):
             print("HARNESS-ERROR %s: vacuity guard %r is zero" % (pid, g))
             return 2
     nviol = t.c.get("violations", 0)
